@@ -632,5 +632,27 @@ m('upload-body-sized-by-content-length','C02',GCS,
 			g.gapiError(w, http.StatusBadRequest, "failed to read body")
 			return
 		}''','R62/','a gzip-encoded media upload is truncated to its compressed length')
+# ---- C03 / R64: the whole-table default is decided on the request
+m('readrows-default-on-derived-list','C03',BT,
+  '''	srs := []simpleRange{{}} // infinite range unless specified
+	if len(req.GetRows().GetRowKeys())+len(req.GetRows().GetRowRanges()) > 0 {
+		srs = mergeRowRanges(req.GetRows().GetRowKeys(), req.GetRows().GetRowRanges())
+	}''','''	srs := mergeRowRanges(req.GetRows().GetRowKeys(), req.GetRows().GetRowRanges())
+	if len(srs) == 0 {
+		srs = []simpleRange{{}} // infinite range unless specified
+	}''','R64/ReadRows/whole-table-default','a RowSet that normalises to nothing returns the whole table')
+m('valuerange-presence-by-emptiness','C05',BT,
+  '''		inRangeEnd := func() bool { return true }
+		switch ev := f.ValueRangeFilter.EndValue.(type) {
+		case *btpb.ValueRange_EndValueClosed:
+			inRangeEnd = func() bool { return bytes.Compare(v, ev.EndValueClosed) <= 0 }
+		case *btpb.ValueRange_EndValueOpen:
+			inRangeEnd = func() bool { return bytes.Compare(v, ev.EndValueOpen) < 0 }
+		}''','''		inRangeEnd := func() bool { return true }
+		if ec := f.ValueRangeFilter.GetEndValueClosed(); len(ec) > 0 {
+			inRangeEnd = func() bool { return bytes.Compare(v, ec) <= 0 }
+		} else if eo := f.ValueRangeFilter.GetEndValueOpen(); len(eo) > 0 {
+			inRangeEnd = func() bool { return bytes.Compare(v, eo) < 0 }
+		}''','R63/','an explicitly empty end bound is treated as absent')
 json.dump(M, open('/verif/mutants.json','w'), indent=1)
 print(len(M),'mutants')
